@@ -315,6 +315,8 @@ class StepCounter:
         except ValueError:
             pass
         mon.register_callback(self.TOOL, mon.events.LINE, self._line)
+        mon.register_callback(self.TOOL, mon.events.PY_START, self._call)
+        mon.register_callback(self.TOOL, mon.events.PY_RESUME, self._call)
         self._installed = True
 
     def _line(self, code, lineno):
@@ -328,12 +330,25 @@ class StepCounter:
             self.active = False
             raise StepBudgetExceeded()
 
-    def start(self, budget=None):
+    def _call(self, code, offset):
+        # coarse mode: function entries and generator resumptions in svgelements.py (about a tenth of the line
+        # events and of their cost): enough to bound a parse that never ends, too coarse to calibrate a budget on
+        if not code.co_filename.endswith("svgelements.py"):
+            return sys.monitoring.DISABLE
+        self.count += 1
+        if self.budget is not None and self.count > self.budget:
+            self.exceeded = True
+            sys.monitoring.set_events(self.TOOL, 0)
+            self.active = False
+            raise StepBudgetExceeded()
+
+    def start(self, budget=None, coarse=False):
         self.install()
         self.count = 0
         self.budget = budget
         self.exceeded = False
-        sys.monitoring.set_events(self.TOOL, sys.monitoring.events.LINE)
+        ev = sys.monitoring.events
+        sys.monitoring.set_events(self.TOOL, (ev.PY_START | ev.PY_RESUME) if coarse else ev.LINE)
         self.active = True
 
     def stop(self):
